@@ -39,7 +39,9 @@ REQUIRED_BRANCHES = ['chi', 'cpd', 'auto_names', 'explicit_names', 'input_file',
                      'rerun_other_criterion', 'rerun_auto_names', 'rerun_explicit_names',
                      'good_explicit_names', 'bad_explicit_names', 'rerun_good_explicit_names', 'rerun_bad_explicit_names',
                      'input_single', 'both_criteria', 'falsy_threshold', 'thr_int', 'thr_np_float64', 'thr_np_int64',
-                     'dup_names', 'fitted_inputs', 'fitted_input_file', 'fitted_input_list', 'fitted_mixed']
+                     'call_keyword', 'call_positional', 'call_mixed', 'call_input_keyword', 'input_via_copy', 'input_via_deepcopy',
+                     'input_via_pickle', 'dup_names', 'flags_edited_in_place', 'flags_edited_shared_array', 'ndata_changed_by_edit',
+                     'edit_list_input', 'edit_file_input', 'edit_flips_side', 'fitted_inputs', 'fitted_input_file', 'fitted_input_list', 'fitted_mixed']
 ASSUMPTIONS = ['thresholds are kept at least 1e-6 (relative) away from every best chi² / best chi² per point, so rounding of '
                'chi2[0] / n_data cannot change a comparison',
                'every record has at least one fit and n_data >= 1 (the property\'s domain)',
@@ -68,13 +70,42 @@ def crit(src, kind):
     return c0 if kind == 'chi' else c0 / n_data_of(src['flags'])
 
 
+CALL_STYLES = ['keyword', 'positional', 'mixed', 'input_keyword']
+
+
+def call_filter_output(style, arg, names_kw, thr):
+    """filter_output called the ways plain Python allows for the documented signature
+    filter_output(input_fits, output_good='auto', output_bad='auto', chi=None, cpd=None):
+    keyword      filter_output(arg, output_good=…, output_bad=…, chi=…/cpd=…)
+    positional   filter_output(arg, good, bad, chi, cpd)           (4th positional is chi, 5th is cpd)
+    mixed        filter_output(arg, good, bad, chi=…/cpd=…) or filter_output(arg, good, bad, chi[, cpd=…])
+    input_keyword filter_output(input_fits=arg, …all keywords…)"""
+    from sedfitter.filter_output import filter_output
+    good = names_kw.get('output_good', 'auto')
+    bad = names_kw.get('output_bad', 'auto')
+    chi, cpd = thr.get('chi'), thr.get('cpd')
+    if style == 'positional':
+        if cpd is None:
+            return filter_output(arg, good, bad, chi)
+        return filter_output(arg, good, bad, chi, cpd)
+    if style == 'mixed':
+        if chi is not None and cpd is not None:
+            return filter_output(arg, good, bad, chi, cpd=cpd)
+        if chi is not None:
+            return filter_output(arg, good, bad, chi)
+        return filter_output(arg, good, bad, cpd=cpd)
+    if style == 'input_keyword':
+        return filter_output(input_fits=arg, **dict(names_kw, **thr))
+    return filter_output(arg, **dict(names_kw, **thr))
+
+
 def calls_of(case):
     """the history as a list of dict(chi=…|None, cpd=…|None, nt=number type)"""
     def norm(c):
         if isinstance(c, dict):
-            return dict(chi=c.get('chi'), cpd=c.get('cpd'), nt=c.get('nt', 'float'))
+            return dict(chi=c.get('chi'), cpd=c.get('cpd'), nt=c.get('nt', 'float'), edit=c.get('edit'), how=c.get('how', 'source'))
         kind, v = c
-        return dict(chi=v if kind == 'chi' else None, cpd=v if kind == 'cpd' else None, nt='float')
+        return dict(chi=v if kind == 'chi' else None, cpd=v if kind == 'cpd' else None, nt='float', edit=None, how='source')
     first = case['call0'] if 'call0' in case else [case['kind'], case['v']]
     return [norm(first)] + [norm(c) for c in case.get('more', [])]
 
@@ -199,6 +230,33 @@ def variant(rng, case, what):
     return case
 
 
+def add_flag_edit(rng, case, how=None, force=None):
+    """a later call before which the flags of some sources are edited IN PLACE on the very Source objects the earlier
+    calls used (n_data has been read by then): `edit` maps source index -> new flags; the cpd threshold of the new call
+    avoids the values attained with the NEW flags.  For file input the input file is written again from the edited objects."""
+    cur = [dict(s_) for s_ in case['sources']]
+    for c in case.get('more', []):
+        if isinstance(c, dict) and c.get('edit'):
+            for k_, fl in c['edit'].items():
+                cur[int(k_)] = dict(cur[int(k_)], flags=list(fl))
+    edit = dict(force or {})
+    if not edit:
+        for i in rng.sample(range(len(cur)), rng.randint(1, len(cur))):
+            fl = list(cur[i]['flags'])
+            for _ in range(rng.randint(1, len(fl))):
+                fl[rng.randrange(len(fl))] = rng.choice([0, 0, 1, 2, 3, 4, 9])
+            if n_data_of(fl) == 0:
+                fl[rng.randrange(len(fl))] = 1
+            edit[str(i)] = fl
+    for k_, fl in edit.items():
+        cur[int(k_)] = dict(cur[int(k_)], flags=list(fl))
+    v = pick_threshold(rng, cur, 'cpd')
+    if v is None:
+        return case
+    case.setdefault('more', []).append(dict(cpd=v, edit=edit, how=how or rng.choice(['source', 'shared'])))
+    return case
+
+
 def fitted_case(rng):
     """inputs are what Fitter.fit returns (Quantity arrays, filters with Quantity wavelengths and an Extinction object in
     meta, model_fluxes present); sources, thresholds and the history are drawn at run time from thr_seed"""
@@ -266,6 +324,16 @@ def gen_cases(seed, tier):
     yield variant(r(23), gen_case(r(23), nsrc=4, inp='file', bests=mixed), 'np.int64')
     yield dict(gen_case(r(24), nsrc=5, inp='list', bests=mixed + [7.]), dup_names=True)
     yield dict(add_history(r(25), gen_case(r(25), nsrc=5, inp='file', bests=mixed + [7.]), ['all_good']), dup_names=True)
+    # the flags of the caller's Source objects are edited in place between calls (n_data read by the first call):
+    # best chi2 10 with 4 fitted points (2.5 per point, good for cpd=3), then two bands set to 0 (5 per point, bad)
+    for i, (inp, how) in enumerate([('list', 'source'), ('list', 'shared'), ('file', 'source'), ('single', 'source')]):
+        c = dict(sources=[dict(chi2=[10., 12.], flags=[1, 1, 1, 1], fluxes=True)] +
+                 ([] if inp == 'single' else [dict(chi2=[3., ef.js(ef.INF)], flags=[1, 4, 2], fluxes=False)]),
+                 kind='cpd', v=3., names='explicit', input=inp)
+        c['more'] = [dict(cpd=3., edit={'0': [1, 1, 0, 0]}, how=how)]
+        yield c
+    for i in range(3):
+        yield add_flag_edit(r(26 + i), gen_case(r(26 + i), nsrc=4, inp=['list', 'file', 'list'][i], kind='cpd', bests=mixed))
     for i in range(4):
         yield dict(fitted_case(r(30 + i)), input=['file', 'list'][i % 2], names='explicit')
     if tier == 'thorough':
@@ -285,6 +353,8 @@ def gen_cases(seed, tier):
             variant(rng, c, rng.choice(['both', 'both', 'falsy', 'int', 'np.float64', 'np.int64']))
         if rng.random() < 0.1:
             c['dup_names'] = True
+        if rng.random() < 0.2:
+            add_flag_edit(rng, c)
         if len(c['sources']) == 1 and c['names'] == 'explicit' and rng.random() < 0.5:
             c['input'] = 'single'
         yield c
@@ -303,6 +373,10 @@ def build_infos(case):
         pay['av'] = [a + 100 * i for a in pay['av']]
         info = ef.build_info(chi2, pay, flags=s['flags'],
                              source_name='same' if (case.get('dup_names') and i % 3 != 2) else 'src%02d' % i, meta=META)
+        # the caller keeps the flag array it hands to the Source (the setter stores it without a copy)
+        shared = np.array(s['flags'], dtype=int)
+        info.source.valid = shared
+        info.caller_flags = shared
         info.source.x = 10. + i
         info.source.y = -5. + i / 8.
         info.source.flux = np.array([1. + i + j / 4. for j in range(len(s['flags']))])
@@ -403,6 +477,7 @@ def property_side(case):
         except Exception as e:
             return False, 'building the inputs failed: %s: %s' % (type(e).__name__, e), br, None, None, None, None
         nsrc = len(sources)
+        sources0 = sources
         if 'fitted' in case:
             br.add('fitted_inputs')
             br.add('fitted_input_' + case['input'])
@@ -423,6 +498,20 @@ def property_side(case):
             if any(f not in (1, 4) for f in s['flags']):
                 br.add('flags_non_fitted')
             br.add('with_fluxes' if s['fluxes'] else 'no_fluxes')
+        via = ['none', 'none', 'copy', 'deepcopy', 'pickle'][int(common.canon_hash(case), 16) % 5]
+        if via != 'none' and case['input'] != 'file' and not any(c.get('edit') for c in calls):
+            import copy as _copy
+            import pickle as _pickle
+            metas = [i.meta for i in infos]
+            if via == 'copy':
+                infos = [_copy.copy(i) for i in infos]
+            elif via == 'deepcopy':
+                infos = [_copy.deepcopy(i) for i in infos]
+            else:
+                infos = [_pickle.loads(_pickle.dumps(i, 2)) for i in infos]
+            for i, m in zip(infos, metas):
+                i.meta = m                          # meta is not part of a record's pickled state
+            br.add('input_via_' + via)
         before = [record_state(i) for i in infos]
         meta0 = meta_state(infos[0].meta)
         ids = [b['x'] for b in before]                       # the source's position identifies it (names may repeat)
@@ -449,24 +538,53 @@ def property_side(case):
             br.add('history')
         results = []
         prev = None
+        sources = [dict(s_) for s_ in sources]
+        if any(c.get('edit') for c in calls):
+            for info in infos:
+                info.source.n_data                      # as fit() does for every source (s.n_data >= n_data_min)
         for ci, call in enumerate(calls):
-            ckw = dict(kw)
+            if call.get('edit'):
+                br.add('flags_edited_in_place' if call['how'] == 'source' else 'flags_edited_shared_array')
+                br.add('edit_file_input' if case['input'] == 'file' else 'edit_list_input')
+                for k_, fl in call['edit'].items():
+                    i_ = int(k_)
+                    was_good = is_good(sources[i_], call)
+                    if n_data_of(fl) != n_data_of(sources[i_]['flags']):
+                        br.add('ndata_changed_by_edit')
+                    sources[i_] = dict(sources[i_], flags=list(fl))
+                    if is_good(sources[i_], call) != was_good:
+                        br.add('edit_flips_side')
+                    target = infos[i_].source.valid if call['how'] == 'source' or not hasattr(infos[i_], 'caller_flags') \
+                        else infos[i_].caller_flags
+                    for j_, f_ in enumerate(fl):
+                        target[j_] = f_
+                before = [record_state(i) for i in infos]
+                if case['input'] == 'file':
+                    fout = FitInfoFile(path, 'w')
+                    for info in infos:
+                        fout.write(info)
+                    fout.close()
+            ckw = {}
             given = [k for k in ('chi', 'cpd') if call[k] is not None]
             for k in given:
                 br.add(k)
                 ckw[k] = typed(call[k], call['nt'])
+            style = call.get('style') or CALL_STYLES[(int(common.canon_hash(case), 16) + ci) % len(CALL_STYLES)]
+            br.add('call_' + style)
             if len(given) == 2:
                 br.add('both_criteria')
             if any(call[k] == 0 for k in given):
                 br.add('falsy_threshold')
             if call['nt'] != 'float':
                 br.add('thr_' + call['nt'].replace('.', '_'))
-            what = 'call %d of %d: filter_output(%s input of %d sources, %s, %s names%s)' % (
-                ci + 1, len(calls), case['input'], nsrc, ', '.join('%s=%r' % (k, ckw[k]) for k in given), case['names'],
-                '' if ci == 0 else '; same output paths as the earlier call(s) %r' % (calls[:ci],))
+            what = 'call %d of %d (%s call): filter_output(%s input of %d sources, %s, %s names%s%s)' % (
+                ci + 1, len(calls), style, case['input'], nsrc, ', '.join('%s=%r' % (k, ckw[k]) for k in given), case['names'],
+                '' if ci == 0 else '; same output paths as the earlier call(s) %r' % (calls[:ci],),
+                '' if not call.get('edit') else '; before this call the flags of the same Source objects were edited in place to %r '
+                '(n_data had been read before)' % (call['edit'],))
             try:
                 with common.quiet():
-                    filter_output(arg, **ckw)
+                    call_filter_output(style, arg, kw, ckw)
             except Exception as e:
                 return False, '%s raised %s: %s' % (what, type(e).__name__, e), br, None, None, None, True
             try:
@@ -522,7 +640,7 @@ def property_side(case):
                     br.add('rerun_%s_after_mixed' % shape)
             prev = shape
             results.append((gi, bi))
-        return True, '', br, [r[0] for r in results], [r[1] for r in results], (sources, calls), None
+        return True, '', br, [r[0] for r in results], [r[1] for r in results], (sources0, calls), None
     finally:
         shutil.rmtree(d, ignore_errors=True)
 
@@ -546,7 +664,12 @@ def run_case(case):
     if not ok:
         return CaseResult(False, detail=detail, violates=violates, branches=br, key=key)
     sources, calls = resolved
-    res = [model_call(sources, c) for c in calls]
+    res = []
+    cur = [dict(s_) for s_ in sources]
+    for c in calls:
+        for k_, fl in (c.get('edit') or {}).items():
+            cur[int(k_)] = dict(cur[int(k_)], flags=list(fl))
+        res.append(model_call(cur, c))
     mg, mb = [r[0] for r in res], [r[1] for r in res]
     if mg != gi or mb != bi:
         return CaseResult(False, detail='model and implementation differ on %r: per call, model good=%r bad=%r, impl good=%r bad=%r'
